@@ -134,6 +134,28 @@ def several_word_commands_family(r, ledger):
     return stmts, extra[:14]
 
 
+def loop_to_start_family(r, ledger):
+    """A command whose transition leads back to the start state: it closes an optional repeated group at the very
+    beginning of the grammar (also as the only item of the group, and inside a word)."""
+    c = ledger_cmd(ledger, r, False)
+    cand = ledger.outputs[c[1]][0].split('\t')[0]
+    k = r.random()
+    if k < 0.4:
+        grp = gast.alt(gast.seq(gast.lit('--file'), c), gast.lit('--verbose'))
+        lead = ['--file']
+    elif k < 0.7:
+        grp = gast.alt(c, gast.lit('--verbose'))
+        lead = []
+    else:
+        grp = gast.alt(gast.seq(gast.lit('-f'), gast.lit('x'), c), gast.lit('-v'))
+        lead = ['-f', 'x']
+    e = gast.seq(gast.opt(gast.many(grp)), gast.lit('end'))
+    stmts = [gast.call('cmd', e)]
+    extra = [lead + [cand, ''], lead + [cand] + lead + [cand[:1]], lead + [cand] + lead + [cand, 'e'],
+             lead + [cand, 'end', ''], lead + ['zzz', '']]
+    return stmts, extra
+
+
 def inword_chain_case(r, acc, origin):
     """Commands inside a word whose candidates include a prefix chain (v1 / v1.0): the longest candidate must be
     consumed; only the maximal candidates are judged (a shorter one that is a prefix of a longer one is the
@@ -375,6 +397,11 @@ def run_job(job, acc):
     ledger = ProbeLedger()
     if s % 7 == 3:
         inword_chain_case(r, acc, 'in-word prefix chain seed=%d' % s)
+        return
+    if s % 10 == 2:
+        stmts, extra = loop_to_start_family(r, ledger)
+        acc.count('loop_to_start_grammars')
+        check_grammar(stmts, ledger, r, max(6, budget // 3), acc, 'command leading back to the start state seed=%d' % s, extra)
         return
     if s % 5 == 1:
         stmts, extra = several_word_commands_family(r, ledger)
